@@ -4,16 +4,17 @@ CONSTANTS
   ResidueAfterFailure = FALSE
   ShortCookieRead = FALSE
   DialResetsData = TRUE
-  Alpns <- AlpnsTls
-  Alphabet <- AlphaAll
-  CutRecs <- CutCore
-  MaxRecs = 3
+  Alpns <- AlpnsOk
+  Alphabet <- AlphaNaming
+  CutRecs <- CutNone
+  MaxRecs = 6
   MaxDials = 1
-  MaxCalls = 1
+  MaxCalls = 2
   MaxStore = 0
   CtxMode = "ignored"
   MaxStalls = 0
   StaleNextHop = FALSE
   Tails = FALSE
-  Vias <- ViasAny
-INVARIANTS Emit RunAgrees
+  Vias <- ViasMeasure
+CONSTRAINT Naming
+INVARIANTS EmitNaming RunAgrees
